@@ -44,6 +44,11 @@ func TestCheck(t *testing.T) {
 		for i := 0; i < env.N(16, 4); i++ {
 			scs = append(scs, sysrun.Gen(rz.Fork(), sysrun.GenOpts{MaxOps: 8, MultiInt: i%2 == 0, Flap: i%2 == 1, TZ: true}))
 		}
+		// one group, one alert stays firing, the others resolve in waves one group_interval apart (k, then k others)
+		rs := vh.NewRand(env.Seed + 51717)
+		for i := 0; i < env.N(20, 4); i++ {
+			scs = append(scs, sysrun.GenStaggeredResolve(rs.Fork()))
+		}
 	}
 	for i := range scs {
 		sc := &scs[i]
